@@ -794,7 +794,7 @@ def directions(ctx, rule, comps, roles=None):
                      {"witness": "titles 'u' and 'u x' with equal rating, query 'u'"})
 
 
-def rating_confinement(ctx, rule, injective=True):
+def rating_confinement(ctx, rule, injective=True, parts=("readers", "unscaled", "width")):
     facts = ctx.facts
     roots = [b.id for b in facts.fns() if b.id.endswith("search::score::score")]
     reach = ctx.cg.reachable(roots)
@@ -825,7 +825,9 @@ def rating_confinement(ctx, rule, injective=True):
     by_body = sorted(set(b.id for b, _, _ in readers))
     key = "rating-readers"
     ok = all(x.endswith("score_rating_up") for x in by_body) and by_body
-    if ok:
+    if "readers" not in parts:
+        pass
+    elif ok:
         ctx.ok(rule, key, "-", "on the scoring path the rating is read only by score_rating_up", nontrivial=True)
     else:
         extra = [x for x in by_body if not x.endswith("score_rating_up")]
@@ -841,8 +843,20 @@ def rating_confinement(ctx, rule, injective=True):
             x = x[2]
         p = U.field_path(x)
         key = "rating-unscaled"
-        if p and p[2] == ["rating"]:
+        narrow = None
+        y = e
+        while y[0] == "cast":
+            if y[3] in ("u8", "i8", "u16", "i16", "u32", "i32"):
+                narrow = y[3]
+            y = y[2]
+        if p and p[2] == ["rating"] and narrow and "width" in parts:
+            ctx.fail(rule, key, fb.where(), "score_rating_up narrows the rating to `%s`: ratings that differ by a multiple of 2^%s tie or "
+                     "change order, and the empty-query pre-selection (which compares the full-width rating) disagrees with the final order"
+                     % (narrow, narrow[1:]), {"witness": "ratings 3_000_000_000 and 20 with limit 1 and the empty query"})
+        elif p and p[2] == ["rating"]:
             ctx.ok(rule, key, fb.where(), "score_rating_up is the rating itself")
+        elif "unscaled" not in parts:
+            pass
         else:
             ctx.fail(rule, key, fb.where(), "score_rating_up is not the plain rating: %s" % S.show(e, fb),
                      {"witness": "ratings that differ only in low bits tie"})
